@@ -47,14 +47,14 @@ def subscribed(mode, k, published):
         return [t for t in published if not t.startswith('_')]
     if mode == 'star':
         return list(published)
-    return [t for t in published if t == f's{k}a']       # explicit: subscribes to topic a only
+    return [t for t in published if t in (f's{k}a', f's{k}b')]       # explicit: subscribes to topics a and b
 
 
 def make_receiver(Z, modes, ephs, balance):
     specs = []
     for k, (mode, eph) in enumerate(zip(modes, ephs)):
         addr = f'tcp://h{k}:{6000 + 2 * k}' + '?' * eph
-        topics = None if mode == 'all' else [('*', '*')] if mode == 'star' else [(f's{k}a', f's{k}a')]
+        topics = None if mode == 'all' else [('*', '*')] if mode == 'star' else [(f's{k}a', f's{k}a'), (f's{k}b', f's{k}b')]
         specs.append((addr, topics))
     r = Z.ZMQReceiver(specs, 'sink', balance=balance)
     subs = list(r.senders)
@@ -147,7 +147,12 @@ def random_history(rnd, S):
         if c < 0.4:
             mid = nxt[k] + (rnd.random() < 0.25)
             nxt[k] = mid + 1
-            ev.append(('pub', k, mid))
+            if rnd.random() < 0.35:       # a publisher need not publish every topic under every id, nor in a fixed order
+                ts = [t for t in (f's{k}a', f's{k}b', f'_s{k}h') if rnd.random() < 0.6] or [f's{k}a']
+                rnd.shuffle(ts)
+                ev.append(('pub', k, mid, ts))
+            else:
+                ev.append(('pub', k, mid))
         elif c < 0.75:
             ev.append(('deliver', k, rnd.randint(1, 4)))
         else:
